@@ -448,9 +448,11 @@ func (fr *frame) inline(callee *ssa.Function, c *Contract, args []Val, com *ssa.
 	}
 	// closure bindings
 	if len(callee.FreeVars) > 0 {
-		var clo *Closure
-		if v, ok := fr.vals[com.Value]; ok {
-			clo = v.Clo
+		clo := fr.cloOverride
+		if clo == nil && com != nil {
+			if v, ok := fr.vals[com.Value]; ok {
+				clo = v.Clo
+			}
 		}
 		if clo == nil || len(clo.Bind) != len(callee.FreeVars) {
 			ft.unsupported("inline closure %s without bindings", callee)
